@@ -285,6 +285,8 @@ def check(run, repo, world):
     }
     for fname, sp in specs.items():
         m, fn, _ = world.func(MOD + "." + fname)
+        from ..normal import scalarise_namedtuples
+        fn = scalarise_namedtuples(fn, world, MOD)
         fn = normalise(fn, world, MOD)
         F = MOD + "." + fname
         cfg = gen_cfg(fn, F)
